@@ -283,6 +283,22 @@ def _r3_chunk(run):
     if len(fills) != 1:
         run.undecided("C07.R3", outer, None, "chunk sampler does not call fill_into_maskable_buffer once", kind="no-fill")
         return
+    # the buffer is allocated once per chunk and shared by all calls of the closure; it is fill_into_maskable_buffer that re-masks
+    # it for the tile at hand.  A return of the buffer's pixels on a path that has not passed the fill hands back the previous
+    # tile's pixels, which are then merged into a tile that other chunks own.
+    from sa import boolalg as _ba
+    fill_c = _ba.conj([c for c in fills[0].pc if c[0] != "loop"])
+    for pc, t, node in r.returns:
+        if not (sym.contains(t, fills[0].term[2][0]) if fills[0].term[2] else False):
+            continue
+        rc = _ba.conj([c for c in pc if c[0] != "loop"])
+        imp = _ba.implies(rc, fill_c)
+        if imp is False:
+            run.violated("C07.R3", outer, node, "the chunk sampler returns the shared buffer on a path that skips fill_into_maskable_buffer (%s): the buffer still holds the "
+                         "previous tile's pixels, which are merged into this tile" % "; ".join(("" if p_ else "not ") + show(c)[:50] for c, p_ in pc if c != "loop" and c[0] != "loop")[:160],
+                         kind="stale-buffer-returned")
+        elif imp is None:
+            run.undecided("C07.R3", outer, node, "cannot show that the returned buffer was filled on this path", kind="stale-buffer-returned")
     a = fills[0].term[2]
     if len(a) != 5 or not all(x[0] == "sub" for x in a[1:]):
         run.undecided("C07.R3", outer, fills[0].node, "fill call arguments not of the form arr[mask]", kind="fill-args")
